@@ -146,6 +146,16 @@ class UserFn(vecint.VInterp):
     def user_call(self, pl, args, n):
         return sp.Function("f")(*[a for a in args if not isinstance(a, (sym.Opaque, sym.ClosureVal))])
 
+    def ev_MCall(self, n):
+        # the integrand is generic over ComplexField ("real and complex integrands"): `.real()` of a quantity built from its values drops a part
+        # (of a magnitude it is the identity: re(|z|) = |z|); for the real quantities of the drivers it stays the by-value conversion
+        if n["name"] in ("real", "to_real") and not n["args"]:
+            rv = self.deref(self.ev(n["recv"]))
+            if isinstance(rv, sp.Basic) and rv.atoms(sp.core.function.AppliedUndef):
+                return sp.re(rv)
+            return rv
+        return vecint.VInterp.ev_MCall(self, n)
+
 
 def check_simpson(F, run, tier):
     b = F.fn("integrate::integrate_simpson")
